@@ -6,6 +6,7 @@ package main
 
 import (
 	"crypto/sha256"
+	"crypto/sha512"
 	"encoding/hex"
 	"encoding/json"
 	"fmt"
@@ -33,7 +34,8 @@ type node struct {
 	Manifest bool
 	MT       string // media type used in descriptors (and as content type at the source)
 	Body     []byte
-	Digest   string // sha256:<hex>
+	Digest   string // <alg>:<hex>
+	Alg      string // "" = sha256, "sha512": the blob is addressed (and stored under blobs/) by sha512
 	Platform string // os/arch[/variant] when listed in an index
 	Kids     []string
 }
@@ -73,7 +75,12 @@ func mustJSON(v any) []byte {
 }
 
 func (c *catalog) add(n *node) *node {
-	n.Digest = sha(n.Body)
+	if n.Alg == "sha512" {
+		h := sha512.Sum512(n.Body)
+		n.Digest = "sha512:" + hex.EncodeToString(h[:])
+	} else {
+		n.Digest = sha(n.Body)
+	}
 	c.nodes[n.Name] = n
 	c.byDig[n.Digest] = n.Name
 	return n
@@ -133,6 +140,8 @@ func newCatalog() *catalog {
 	c.blob("C2", mtD2Config, configBody("C2", "arm64", []string{"L2", "L3"}))
 	c.blob("C3", mtOCIConfig, configBody("C3", "arm", []string{"L4"}))
 	c.blob("C4", mtOCIConfig, configBody("C4", "amd64", []string{"L4"}))
+	c.blob("C5", mtOCIConfig, configBody("C5", "amd64", []string{"L5"}))
+	c.add(&node{Name: "L5", MT: mtOCILayer, Body: layerBody("L5"), Alg: "sha512"})
 
 	type imgT struct {
 		SchemaVersion int               `json:"schemaVersion"`
@@ -167,6 +176,9 @@ func newCatalog() *catalog {
 	c.add(&node{Name: "M4", Manifest: true, MT: mtOCIManifest, Platform: "linux/amd64", Kids: []string{"C4", "L4"},
 		Body: mustJSON(imgT{SchemaVersion: 2, MediaType: mtOCIManifest, Config: c.d("C4"), Layers: layers("", "L4"),
 			Annotations: map[string]string{"name": "M4"}})})
+	// M5: OCI image manifest whose layer is addressed by sha512
+	c.add(&node{Name: "M5", Manifest: true, MT: mtOCIManifest, Platform: "linux/amd64", Kids: []string{"C5", "L5"},
+		Body: mustJSON(imgT{SchemaVersion: 2, MediaType: mtOCIManifest, Config: c.d("C5"), Layers: layers("", "L5")})})
 	// S1: docker schema1 (unsigned): fsLayers, no config
 	type fsl struct {
 		BlobSum string `json:"blobSum"`
@@ -215,7 +227,7 @@ func newCatalog() *catalog {
 
 // roots are the nodes an ImageCopy may start from; each is tagged at the source with its lower
 // cased name.
-var roots = []string{"M1", "M2", "M3", "M4", "S1", "I1", "N1", "X1", "A1", "A2"}
+var roots = []string{"M1", "M2", "M3", "M4", "M5", "S1", "I1", "N1", "X1", "A1", "A2"}
 
 func (c *catalog) fallbackTag() string {
 	return strings.Replace(c.nodes["M1"].Digest, ":", "-", 1)
